@@ -248,7 +248,7 @@ func (c *Ctx) runSketchGen(g *SketchGen, mx *SketchMatrix, per int, purpose stri
 	var n int64
 	var parseErr error
 	o := TLCOpts{Module: name, Cfg: cfg, Purpose: purpose, Extra: map[string]string{name + ".tla": text},
-		Simulate: g.Simulate, Num: g.Num, Depth: g.Depth + 1, Seed: c.Seed, Constants: g.describe(), Timeout: 40 * time.Minute}
+		Simulate: g.Simulate, Num: g.Num, Depth: g.Depth + 1, Seed: c.Seed, Constants: g.describe(), Timeout: 120 * time.Minute}
 	if g.Simulate {
 		o.Workers = 4
 		o.Num = (g.Num + 3) / 4
